@@ -26,7 +26,19 @@ func VerifC07Grpc() {
 	})
 	xid := vrt.String("xid", vrt.Param("xidlen", 4))
 	vrt.Assume(xid != "")
-	caller := tm.InitSeataContext(context.Background())
+	base := context.Background()
+	// the caller may already carry outgoing metadata: its own headers, or - an intermediary
+	// forwarding what it received - an xid header of another (stale) transaction
+	switch vrt.Choice("outgoing.metadata", 3) {
+	case 1:
+		base = metadata.NewOutgoingContext(base, metadata.Pairs("trace-id", "t1"))
+	case 2:
+		stale := vrt.String("stale.xid", 2)
+		vrt.Assume(stale != "" && stale != xid)
+		base = metadata.NewOutgoingContext(base, metadata.Pairs([]string{"tx_xid", "TX_XID"}[vrt.Choice("stale.spelling", 2)], stale))
+		vrt.Reach("grpc/stale-xid-in-outgoing-metadata")
+	}
+	caller := tm.InitSeataContext(base)
 	tm.SetXID(caller, xid)
 
 	handlerSaw := "?"
